@@ -63,6 +63,27 @@ def main():
         write(pb, bad)
         acc, line = tlc_trace("PipelineTrace", pb)
         expect((not acc) and line == i + 1, "PipelineTrace rejects a corrupted `%s.%s` at line %d (rejected at %s)" % (ev, field, i + 1, line), failures)
+    # ---- closure loop traces
+    resps = common.kv("gen", [{"id": k, "src": c["src"], "want": ["closev"]} for k, c in enumerate(cases)])
+    lines = []
+    for k, (c, r) in enumerate(zip(cases, resps)):
+        lines += pipeline.closure_lines(k, c, r) or []
+    p = os.path.join(wd, "closure_good.ndjson")
+    write(p, lines)
+    acc, _ = tlc_trace("ClosureTrace", p)
+    expect(acc, "ClosureTrace accepts %d recorded closure-loop events of %d classics" % (len(lines), len(cases)), failures)
+    for ev, what, mutate in (("cexpand", "one pushed item dropped", lambda e: e.update(pushed=e["pushed"][1:])),
+                             ("cexpand", "a pushed item's lookahead changed", lambda e: e["pushed"].__setitem__(0, [e["pushed"][0][0], e["pushed"][0][1], "$nope"])),
+                             ("cskip", "a skipped item that is not the front of the queue", lambda e: e.update(item=[e["item"][0], e["item"][1] + 1, e["item"][2]])),
+                             ("cend", "one item missing from the result", lambda e: e.update(items=e["items"][1:]))):
+        idx = [i for i, e in enumerate(lines) if e["ev"] == ev and (ev != "cexpand" or len(e["pushed"]) >= 2)]
+        i = idx[len(idx) // 2]
+        bad = copy.deepcopy(lines)
+        mutate(bad[i])
+        pb = os.path.join(wd, "closure_bad.ndjson")
+        write(pb, bad)
+        acc, line = tlc_trace("ClosureTrace", pb)
+        expect((not acc) and line == i + 1, "ClosureTrace rejects %s at line %d (rejected at %s)" % (what, i + 1, line), failures)
     # ---- tokenizer traces
     srcs = lexer.repo_sources()[:6] + ["start S // é€😀\n#[a(b)] struct S { a: $A }\nterminal T { $A: x::Y<(), z> }\n", "#[(]", "$start x"]
     toks = common.kv("tokenize", [{"id": i, "src": s, "want": ["lexev"]} for i, s in enumerate(srcs)])
